@@ -912,8 +912,52 @@ func (r *c20run) allTypes() {
 	}
 	run(c20Types, true)
 	run(c20UntaggedTypes, false)
+	r.typeCensus()
 	res.CountN("types-with-text-or-json-form", len(c20Types))
 	res.CountN("types-untagged-default-json", len(c20UntaggedTypes))
+}
+
+// typeCensus compares the committed type list with the census the extractor made
+// of the current tree (lean/SiaModel/Gen/report.json): a type with a text/JSON form
+// that is not swept is a coverage gap and is reported (note + bucket), never silently.
+func (r *c20run) typeCensus() {
+	b, err := readFile("../lean/SiaModel/Gen/report.json")
+	if err != nil {
+		r.res.Note("type census not available (%v): the committed list of %d types was swept", err, len(c20Types))
+		return
+	}
+	var rep struct {
+		Facts struct {
+			FactsText struct {
+				Census []string `json:"jsonTypeCensus"`
+			} `json:"FactsText"`
+		} `json:"facts"`
+	}
+	if json.Unmarshal(b, &rep) != nil || len(rep.Facts.FactsText.Census) == 0 {
+		r.res.Note("type census not found in the extractor report")
+		return
+	}
+	have := map[string]int{}
+	for _, p := range c20Types {
+		have[c20TypeName(p)]++
+	}
+	want := map[string]int{}
+	for _, e := range rep.Facts.FactsText.Census {
+		want[strings.SplitN(e, "@", 2)[0]]++
+	}
+	for n, k := range want {
+		if have[n] < k {
+			r.res.Count("type-census-NOT-SWEPT")
+			r.res.Note("type %s has a text/JSON form in the current tree but is not in harness/props/c20_types.go (regenerate the list)", n)
+		}
+	}
+	for n, k := range have {
+		if want[n] < k {
+			r.res.Count("type-census-gone")
+			r.res.Note("type %s is in harness/props/c20_types.go but the extractor no longer sees a text/JSON form for it", n)
+		}
+	}
+	r.res.CountN("type-census-size", len(rep.Facts.FactsText.Census))
 }
 
 func c20Trunc(s string, n int) string {
